@@ -140,3 +140,74 @@ def bounded(params):
     return {"evaluations": evals, "distinct_nontrivial": nontriv, "failures": failures,
             "rule": "seeded 1-D instance-map pairs (length 7, pred <=3 labels, ref <=2 labels, canonical) x {IOU,DSC,ASSD} x thresholds through the real merge matcher; non-trivial = at least one merge happened",
             "bound": "length 7; quick 150 pairs, thorough 3000"}
+
+
+def bounded_fn(params):
+    """Function-level bounded check: the real MaximizeMergeMatching._match_instances with its two callee
+    contracts stubbed (candidate scorer -> given best-first list; combined score -> a table over prediction
+    subsets), enumerated exhaustively over a small score grid.  The oracle tracks the *true* combined score of
+    each reference and checks the statement: every merge strictly improves it, final >= seed, final meets thr."""
+    import itertools
+    import panoptica.instance_matcher as IM
+    from panoptica.metrics import Metric
+    from panoptica.utils.processing_pair import UnmatchedInstancePair
+    tier = params.get("tier", "quick")
+    grid = [0.25, 0.5, 0.75] if tier == "quick" else [0.2, 0.4, 0.6, 0.8]
+    failures, evals, nontriv = [], 0, 0
+    pair = UnmatchedInstancePair(np.zeros(1, np.uint8), np.zeros(1, np.uint8))
+    subsets = [frozenset(s) for k in (2, 3) for s in itertools.combinations((1, 2, 3), k)]
+    orig = IM._calc_matching_metric_of_overlapping_labels
+    try:
+        for metric in ("IOU", "ASSD"):
+            dec = SM.DECREASING[metric]
+            for singles in itertools.product(grid, repeat=3):
+                order = sorted(range(3), key=lambda i: singles[i], reverse=not dec)
+                cand = [(singles[i], (1, i + 1)) for i in order]
+                for cs_vals in itertools.product(grid, repeat=len(subsets)):
+                    cs = dict(zip(subsets, cs_vals))
+                    for thr in grid[:2] + [grid[-1]]:
+                        evals += 1
+                        IM._calc_matching_metric_of_overlapping_labels = lambda *a, **k: list(cand)
+                        m = IM.MaximizeMergeMatching(Metric[metric], thr)
+                        m.new_combination_score = lambda pls, npl, rl, pr: cs[frozenset(list(pls) + [npl])]
+                        try:
+                            lm = dict(m._match_instances(pair).labelmap)
+                        except Exception as e:
+                            lm = None
+                            bad = [f"raised {type(e).__name__}: {e}"[:100]]
+                        if lm is not None:
+                            bad = []
+                            ps = frozenset(lm)
+                            if ps:
+                                nontriv += 1 if len(ps) > 1 else 0
+                                true = singles[next(iter(ps)) - 1] if len(ps) == 1 else cs[ps]
+                                if not any(SM.beats(metric, singles[p - 1], thr) for p in ps):
+                                    bad.append("matched although no single assigned prediction meets the threshold")
+                                # replay the merge order: seed = first candidate in order that is in ps, then each later one
+                                seq = [p for (_, (_, p)) in cand if p in ps]
+                                cur = singles[seq[0] - 1]
+                                acc = {seq[0]}
+                                for p in seq[1:]:
+                                    new = cs[frozenset(acc | {p})]
+                                    if not (new < cur if dec else new > cur):
+                                        bad.append(f"prediction {p} merged although the combined score {new} is not strictly better than {cur}")
+                                    cur, acc = new, acc | {p}
+                                if not SM.better_eq(metric, true, singles[seq[0] - 1]):
+                                    bad.append(f"final score {true} worse than the seeding candidate {singles[seq[0] - 1]}")
+                                if not SM.beats(metric, true, thr):
+                                    bad.append(f"final score {true} misses the threshold {thr}")
+                        if bad and len(failures) < 4:
+                            failures.append({"input": {"metric": metric, "singles": singles, "combined": {str(sorted(k)): v for k, v in cs.items()}, "thr": thr},
+                                             "problems": bad[:3], "labelmap": lm, "replay_kind": "c14.fn",
+                                             "witness_class": WC if dec and any("not strictly better" in b for b in bad) and False else None})
+                        if len(failures) >= 4:
+                            break
+                    if len(failures) >= 4:
+                        break
+                if len(failures) >= 4:
+                    break
+    finally:
+        IM._calc_matching_metric_of_overlapping_labels = orig
+    return {"evaluations": evals, "distinct_nontrivial": nontriv, "failures": failures, "exhaustive": True,
+            "rule": "one reference, three candidate predictions: all single scores and all combined scores of prediction subsets over a score grid x thresholds x {IOU, ASSD}; real _match_instances with stubbed callee contracts; non-trivial = a merge happened",
+            "bound": f"3 predictions, grid {grid}"}
